@@ -485,6 +485,8 @@ class Gen:
                     self.features.add("subcircuit-control-outer-key")
                 mk = cirq.MeasurementKey(ck)
                 form = self.t.draw(7, "ctl-form")
+                if len(local_keys) == 2 and self.t.chance(1, 2, "ctl-two-keys?"):
+                    form = 6
                 if form == 6 and len(local_keys) == 2:
                     # an expression over both of the sub-circuit's keys (which a key map may rename crosswise)
                     su, sv = sympy.Symbol("u"), sympy.Symbol("v")
@@ -534,7 +536,7 @@ class Gen:
         # repetition ids only make a difference (and are only well defined) for two or more repetitions
         use_ids = reps >= 2 and self.t.chance(1, 2, "sub-rep-ids?")
         kmap = {}
-        if len(local_keys) == 2 and self.t.chance(1, 4, "sub-keymap-swap?"):
+        if len(local_keys) == 2 and self.t.chance(1, 2, "sub-keymap-swap?"):
             kmap = {"u": "v", "v": "u"}        # a map may give one key the former name of another
             self.features.add("subcircuit-key-map-swap")
         for lk in local_keys:
